@@ -176,6 +176,37 @@ def run(c):
                 dis.append({"relation": "launch_ok (program's table vs at_exec (shuffle ...))",
                             "case": {k: v for k, v in cases[cid].items() if not k.startswith("_")},
                             "child": obs[cid].get("first_table"), "err": obs[cid].get("first_err")})
+    # ---- programs started inside a container: the list, and nothing of the container init (stdio, control socket, set-up leftovers)
+    cexe = c.build_harness("h_c06c")
+    cscr = c.tmpdir("ct")
+    ccases = []
+    lists = [[], [0], [0, 0], [0, 1], [1, 0], [0, 1, 2], [2, 0, 1], [0, 0, 0], [0, 1, 2, 3], [3, 2, 1, 0, 0], [0, 1, 2, 1, 0, 2, 3]]
+    if not c.quick():
+        lists += [[r.randrange(0, 4) for _ in range(r.randint(0, 9))] for _ in range(40)]
+    for li, l in enumerate(lists):
+        for execfd in (False, True):
+            ccases.append({"id": len(ccases), "pool": 4, "list": l, "execfd": execfd, "sync": li % 3 == 1, "sync_after": li % 3 == 2 and li % 2 == 0})
+    cobs = c.run_harness(cexe, ccases, env=dict(os.environ, VERIF_SCRATCH=cscr), timeout=900)
+    for x, o in zip(ccases, cobs):
+        if "harness_err" in o:
+            raise RuntimeError(o["harness_err"])
+        c.count(("container", tuple(x["list"]), x["execfd"], x["sync"], x["sync_after"]), nontrivial=len(x["list"]) != 3 or x["list"] != [0, 1, 2],
+                klass="container:%d-entries" % min(len(x["list"]), 4))
+        canon = lambda what, **kw: dict({"kind": "descriptor-table", "what": what, "mode": "container", "entries": len(x["list"]), "exec_descriptor": x["execfd"]}, **kw)
+        if o.get("status") != 1 or "table" not in o:
+            c.finding_or_violation(canon("a program started in the container with this list did not run or report", status=o.get("status"), error=str(o.get("error"))[:80]),
+                                   {"case": x, "observed": o})
+            continue
+        tab = {t[0]: (t[1], t[2]) for t in o["table"]}
+        want = {i: tuple(w) for i, w in enumerate(o["want"])}
+        if tab != want:
+            extra_ = sorted(set(tab) - set(want))
+            c.finding_or_violation(canon("program's table differs from the list", extra_open=extra_, wrong_or_missing_slots=sorted(k for k in want if tab.get(k) != want[k]),
+                                         extra_is_init_stderr=[k for k in extra_ if list(tab[k]) == o["init_stderr"]]),
+                                   {"case": x, "child": o["table"], "expected_slots": {k: list(v) for k, v in want.items()}})
+        elif any(t[4] for t in o["table"]):
+            c.finding_or_violation(canon("close-on-exec set on a slot"), {"case": x, "child": o["table"]})
+    c.cov["container_launches"] = len(ccases)
     c.cov["launches"] = len(cases) - skipped
     c.cov["skipped_cases"] = skipped
     c.cov["exhaustive"] = True
